@@ -12,11 +12,17 @@ Singles == {m \in Methods : Cardinality(m.ct) <= 2 \/ m.ct = {"correctable", "qu
 DocSimple == {m \in Methods : Documented(m) /\ m.io = "local"}
 Reserved == {"Configuration", "Node", "Manager", "QuorumSpec"}
 
+Base(ms, r, n) == [methods |-> ms, reserved |-> r, nsvc |-> n, ext |-> "ext", naming |-> "Camel"]
+QCPlain == {x \in DocSimple : x.ct = {"quorumcall"} /\ ~x.pn /\ ~x.cu}
 Services ==
-  {[methods |-> <<m>>, reserved |-> "", nsvc |-> 1] : m \in Singles}
-  \cup (IF Pairs THEN {[methods |-> <<a, b>>, reserved |-> "", nsvc |-> 1] : a \in DocSimple, b \in DocSimple} ELSE {})
-  \cup {[methods |-> <<m>>, reserved |-> r, nsvc |-> 1] : m \in {x \in DocSimple : x.ct = {"quorumcall"} /\ ~x.pn /\ ~x.cu}, r \in Reserved}
-  \cup {[methods |-> <<m>>, reserved |-> "", nsvc |-> 2] : m \in {x \in DocSimple : x.ct = {"quorumcall"} /\ ~x.pn /\ ~x.cu}}
+  {Base(<<m>>, "", 1) : m \in Singles}
+  \cup (IF Pairs THEN {Base(<<a, b>>, "", 1) : a \in DocSimple, b \in DocSimple} ELSE {})
+  \cup {Base(<<m>>, r, 1) : m \in QCPlain, r \in Reserved}
+  \cup {Base(<<m>>, "", 2) : m \in QCPlain}
+  \* every documented method with a request or response type imported from a package of every name class
+  \cup {[Base(<<m>>, "", 1) EXCEPT !.ext = e] : m \in {x \in Methods : Documented(x) /\ x.io \in {"extin", "extout"}}, e \in ExtPkgs}
+  \* every documented method under every naming style
+  \cup {[Base(<<m>>, "", 1) EXCEPT !.naming = n] : m \in DocSimple, n \in Namings}
 
 VARIABLE svc
 Init == svc \in Services
@@ -28,5 +34,6 @@ ASSUME \A v \in {"accept", "reject", "either"} : \E s \in Services : Verdict(s) 
 ASSUME \A m \in Methods : Documented(m) => ~Illegal(m)
 
 Emit == CSVWrite("%1$s", <<ToJson([methods |-> [i \in DOMAIN svc.methods |-> J(svc.methods[i])],
-                                   reserved |-> svc.reserved, nsvc |-> svc.nsvc, verdict |-> Verdict(svc)])>>, IOEnv.GEN_OUT)
+                                   reserved |-> svc.reserved, nsvc |-> svc.nsvc, ext |-> svc.ext, naming |-> svc.naming,
+                                   verdict |-> Verdict(svc)])>>, IOEnv.GEN_OUT)
 =============================================================================
